@@ -1,5 +1,6 @@
 import NutilsVerif.Model.C06
 import NutilsVerif.Model.C06Expr
+import NutilsVerif.Model.C06Func
 open NutilsVerif NutilsVerif.Proto NutilsVerif.C06
 
 def parseNum (s : String) : Option PyNum :=
@@ -171,6 +172,14 @@ def handle (line : String) : String :=
         | some l => showRes (bounds l)
       s!"bounds={showRes (bounds e)};deps={deps};scalar={if isScalar e then 1 else 0};index={if isIndex e then 1 else 0};simp={showSimp e};len={len};lenbounds={lenb};eval={ev}"
     | _, _, _ => "bad-request"
+  | ["fargs", args, keys, targets] =>
+    -- announced names of `_Replace(arg, spec)`: names of arg | keys of the specification | announced names of each replacement (`;`-separated, same order)
+    let ks := words keys
+    let ts := (targets.splitOn ";").map words
+    if ks.length != ts.length then "bad-request" else
+    let tbl := ks.zip ts
+    let res := Func.announceReplace (words args) ks (fun k => match tbl.lookup k with | some t => t | none => [])
+    "names " ++ " ".intercalate res.eraseDups
   | ["poly", nv, n] =>
     match nv.toNat?, n.toInt? with
     | some nv, some n =>
